@@ -1333,3 +1333,11 @@ Proof.
     exists d. cbn [opened_version]. split; auto. split; auto.
     apply (handle_trace b lim h sz o acts s1 d I1 HO1 V K).
 Qed.
+
+Lemma run_app b lim l1 l2 : run b lim (l1 ++ l2) = run_from b lim (run b lim l1) l2.
+Proof. unfold run, run_from. apply fold_left_app. Qed.
+
+Theorem restart_clean b lim acts :
+  let s := run b lim (acts ++ [AReopen]) in
+  s_bs s = 0 /\ s_me s = 0 /\ s_mb s = 0 /\ retrievable b s = [] /\ dir_listing s = [].
+Proof. cbv zeta. rewrite run_app. cbn. auto. Qed.
